@@ -185,6 +185,7 @@ fn spawn(id: &str, tier: Tier, seed: u64, index: usize, total: usize, restart: u
         .env("VERIF_ALLOC_CAP", DEFAULT_CAP.to_string())
         .env("VERIF_WORKERS", "1")
         .env("VERIF_CASES_DONE", done_before.to_string())
+        .env("VERIF_STOP_FILE", dir.join("stop").to_string_lossy().to_string())
         .stdout(std::process::Stdio::null())
         .stderr(stderr)
         .spawn()
@@ -291,10 +292,13 @@ pub fn supervise(ctx: &mut Ctx, campaign: &str, watchdog: u64, max_restarts: u32
                         };
                         ctx.evaluations += 1;
                         let known = ctx.record_failure(campaign, &case, &fail);
-                        // an unlisted process-level failure is reported once per signature; the
-                        // campaign still continues behind it
-                        let _ = known;
-                        if respawns < max_respawns {
+                        // a listed process-level finding: the campaign continues behind it; an
+                        // unlisted one is a counterexample and ends the search everywhere
+                        let stop_file = dir.join("stop");
+                        if !known {
+                            let _ = std::fs::write(&stop_file, b"stop");
+                        }
+                        if respawns < max_respawns && !stop_file.exists() {
                             respawns += 1;
                             next.push(spawn(&ctx.id, ctx.tier, ctx.seed, c.index, total, c.restart + 1, &dir, c.done_before + done));
                         }
